@@ -48,12 +48,23 @@ class DequeE(ListE):
 
 class SetE:
     kind = "set"
+    frozen = False
 
     def __init__(self, items):
         self.items = list(items)  # concrete hashables, insertion ordered
 
     def copy(self):
         return SetE(self.items)
+
+
+class FrozenSetE(SetE):
+    """frozenset(...): the element model of SetE, but IMMUTABLE as in CPython - `fs |= x` rebinds the name to a new
+    object (frozenset has no __ior__), there is no add / discard / update ..., and it is not an instance of `set`."""
+
+    frozen = True
+
+    def copy(self):
+        return FrozenSetE(self.items)
 
 
 class NumSetE(SetE):
